@@ -69,7 +69,7 @@ def main():
         if not conf.get("confirmed"):
             print("  NOT CONFIRMED - not kept:", conf.get("demo_tail_with_patch", "")[-200:], "|", conf.get("demo_tail_without_patch", "")[-200:])
             continue
-        fired = es.detect(patch, props)
+        fired = es.detect(patch, props, restore=False)
         own = fired[prop]
         hit = {p: v for p, v in fired.items() if v["exit"] != 0 and p != prop}
         print(f"  target {prop}: exit={own['exit']} rules={sorted({v['rule'] for v in own['violations']})}; others: {sorted(hit)}", flush=True)
@@ -86,6 +86,8 @@ def main():
             "detected_by_target_check": own["exit"] == 1, "target_check": own, "other_checks_that_fire": hit,
         }
         json.dump(meta, open(os.path.join(d, "meta.json"), "w"), indent=1)
+    # evidence files were rewritten while patches were applied: restore them from the clean tree
+    es.sh(f"git -C {es.VERIF} checkout -- evidence")
 
 
 if __name__ == "__main__":
